@@ -269,63 +269,68 @@ Definition invalid_sep (x : str) : Z :=
   | _ => inv_sep x 0 46 32%N
   end.
 
-(* scanNumber: (tok, state after number and suffix, length in bytes of the unit suffix) *)
-Definition scan_number (s0 : Sc) : tk * Sc * Z :=
-  let fuel := S (length (rest s0)) in
-  (* integer part *)
-  let '(tok, base, prefix, digsep, inv, s) :=
-    if negb (cur s0 =? 46) then
-      if cur s0 =? 48 then
-        let s1 := nxt s0 in
-        let lc := lower (cur s1) in
-        let '(base, prefix, ds, s2) :=
-          if lc =? 120 then (16, 120, 0, nxt s1)
-          else if lc =? 111 then (8, 111, 0, nxt s1)
-          else if lc =? 98 then (2, 98, 0, nxt s1)
-          else (8, 48, 1, s1) in
-        let '(ds', s3, inv) := digits fuel base s2 (-1) ds in
-        (T_INT, base, prefix, ds', inv, s3)
-      else
-        let '(ds', s3, inv) := digits fuel 10 s0 (-1) 0 in
-        (T_INT, 10, 0, ds', inv, s3)
-    else (T_ILLEGAL, 10, 0, 0, -1, s0) in
-  (* fractional part *)
+(* scanNumber, in its four parts.  prefix: 0 decimal, '0' 48, 'x' 120, 'o' 111, 'b' 98 *)
+Definition is_float (t : tk) : bool := match t with T_FLOAT => true | _ => false end.
+Definition is_int (t : tk) : bool := match t with T_INT => true | _ => false end.
+(* integer part: (tok, base, prefix, digsep, invalid, state) *)
+Definition num_int (fuel : nat) (s0 : Sc) : tk * Z * Z * Z * Z * Sc :=
+  if negb (cur s0 =? 46) then
+    if cur s0 =? 48 then
+      let s1 := nxt s0 in
+      let lc := lower (cur s1) in
+      let '(base, prefix, ds, s2) :=
+        if lc =? 120 then (16, 120, 0, nxt s1)
+        else if lc =? 111 then (8, 111, 0, nxt s1)
+        else if lc =? 98 then (2, 98, 0, nxt s1)
+        else (8, 48, 1, s1) in
+      let '(ds', s3, inv) := digits fuel base s2 (-1) ds in
+      (T_INT, base, prefix, ds', inv, s3)
+    else
+      let '(ds', s3, inv) := digits fuel 10 s0 (-1) 0 in
+      (T_INT, 10, 0, ds', inv, s3)
+  else (T_ILLEGAL, 10, 0, 0, -1, s0).
+(* fractional part and the "has no digits" check: (tok, digsep, invalid, state) *)
+Definition num_frac (fuel : nat) (tok : tk) (base prefix digsep inv : Z) (s : Sc) : tk * Z * Z * Sc :=
   let '(tok, digsep, inv, s) :=
     if cur s =? 46 then
       let s := if (prefix =? 111) || (prefix =? 98) then err s (off s) E_RADIX else s in
       let '(ds', s', inv') := digits fuel base (nxt s) inv digsep in
       (T_FLOAT, ds', inv', s')
     else (tok, digsep, inv, s) in
-  let s := if Z.land digsep 1 =? 0 then err s (off s) E_NODIGITS else s in
-  (* exponent *)
+  (tok, digsep, inv, if Z.land digsep 1 =? 0 then err s (off s) E_NODIGITS else s).
+(* exponent: (tok, digsep, state) *)
+Definition num_exp (fuel : nat) (tok : tk) (prefix digsep : Z) (s : Sc) : tk * Z * Sc :=
   let e := lower (cur s) in
-  let '(tok, digsep, s) :=
-    if (e =? 101) || (e =? 112) then
-      let s := if (e =? 101) && negb (prefix =? 0) && negb (prefix =? 48) then err s (off s) E_EXP_DEC
-               else if (e =? 112) && negb (prefix =? 120) then err s (off s) E_EXP_HEX else s in
-      let s := nxt s in
-      let s := if (cur s =? 43) || (cur s =? 45) then nxt s else s in
-      let '(ds, s', _) := digits fuel 10 s (-1) 0 in
-      let s' := if Z.land ds 1 =? 0 then err s' (off s') E_EXP_NODIGITS else s' in
-      (T_FLOAT, Z.lor digsep ds, s')
-    else if (prefix =? 120) && (match tok with T_FLOAT => true | _ => false end)
-         then (tok, digsep, err s (off s) E_HEX_NEEDS_P)
-         else (tok, digsep, s) in
-  (* suffix: XGo / TPL  i, r, unit;  Go  i *)
-  let '(tok, s, unit) :=
-    if is_go d then
-      if cur s =? 105 then (T_IMAG, nxt s, 0) else (tok, s, 0)
-    else if is_letter (cur s) then
-      let s' := scan_ident fuel s in
-      let id := slice s s' in
-      match id with
-      | [105%N] => (T_IMAG, s', 0)
-      | [114%N] => (T_RAT, s', 0)
-      | _ => (tok, s', off s' - off s)
-      end
-    else (tok, s, 0) in
+  if (e =? 101) || (e =? 112) then
+    let s := if (e =? 101) && negb (prefix =? 0) && negb (prefix =? 48) then err s (off s) E_EXP_DEC
+             else if (e =? 112) && negb (prefix =? 120) then err s (off s) E_EXP_HEX else s in
+    let s := nxt s in
+    let s := if (cur s =? 43) || (cur s =? 45) then nxt s else s in
+    let '(ds, s', _) := digits fuel 10 s (-1) 0 in
+    let s' := if Z.land ds 1 =? 0 then err s' (off s') E_EXP_NODIGITS else s' in
+    (T_FLOAT, Z.lor digsep ds, s')
+  else if (prefix =? 120) && is_float tok then (tok, digsep, err s (off s) E_HEX_NEEDS_P)
+  else (tok, digsep, s).
+(* suffix: XGo / TPL  i, r, unit (any other identifier);  Go  i.  (tok, state, unit length) *)
+Definition num_suffix (fuel : nat) (tok : tk) (s : Sc) : tk * Sc * Z :=
+  if is_go d then
+    if cur s =? 105 then (T_IMAG, nxt s, 0) else (tok, s, 0)
+  else if is_letter (cur s) then
+    let s' := scan_ident fuel s in
+    let id := slice s s' in
+    if str_eqb id [105%N] then (T_IMAG, s', 0)                (* "i" *)
+    else if str_eqb id [114%N] then (T_RAT, s', 0)            (* "r" *)
+    else (tok, s', off s' - off s)                            (* s.unitVal = id *)
+  else (tok, s, 0).
+(* scanNumber: (tok, state after number and suffix, length in bytes of the unit suffix) *)
+Definition scan_number (s0 : Sc) : tk * Sc * Z :=
+  let fuel := S (length (rest s0)) in
+  let '(tok, base, prefix, digsep, inv, s) := num_int fuel s0 in
+  let '(tok, digsep, inv, s) := num_frac fuel tok base prefix digsep inv s in
+  let '(tok, digsep, s) := num_exp fuel tok prefix digsep s in
+  let '(tok, s, unit) := num_suffix fuel tok s in
   let lit := firstn (Z.to_nat (off s - unit - off s0)) (rest s0) in
-  let s := if (match tok with T_INT => true | _ => false end) && (0 <=? inv) then err s inv E_INVALID_DIGIT else s in
+  let s := if is_int tok && (0 <=? inv) then err s inv E_INVALID_DIGIT else s in
   let s := if negb (Z.land digsep 2 =? 0) then
              let i := invalid_sep lit in if 0 <=? i then err s (off s0 + i) E_SEP else s
            else s in
@@ -489,24 +494,28 @@ Definition line_info_errs (lit : str) (offs : Z) : list (Z * Z) :=
     else
       if (n =? 0) || too_big n then [(offs + i, E_LINE)] else [].
 
-(* scanComment of XGo and Go.  s0 is at the initial '/' or '#' (not yet consumed).
-   Result: state after, literal, nlOffset (Go; 0 = none). *)
-Definition scan_comment_x (s0 : Sc) : M (Sc * str * Z) :=
+(* scanComment of XGo and Go, scanning part.  s0 is at the initial '/' or '#' (not yet consumed).
+   Result: state after, numCR, "next >= 0" (valid comment), nlOffset (Go; 0 = none). *)
+Definition comment_scan (s0 : Sc) : Sc * Z * bool * Z :=
   let fuel := S (length (rest s0)) in
   let offs := off s0 in
   let s := nxt s0 in
-  let '(s1, ncr, valid, nl) :=
-    if cur s =? 47 then
-      let '(s', n) := until_nl fuel (nxt s) 0 in (s', n, true, 0)
-    else if is_go d || (cur s =? 42) then
-      let '(s', n, term, nl) := block_body fuel (nxt s) 0 0 in
-      if term then (s', n, true, nl) else (err s' offs E_COMMENT, n, false, nl)
-    else (* XGo: '#'-style comment, the default *)
-      let '(s', n) := until_nl fuel s 0 in (s', n, true, 0) in
-  let lit0 := slice s0 s1 in
-  let '(lit1, ncr1) :=
-    if (0 <? ncr) && (2 <=? zlen lit0) && (nth1 lit0 =? 47)%N && (last lit0 0 =? 13)%N
-    then (removelast lit0, ncr - 1) else (lit0, ncr) in
+  if cur s =? 47 then
+    let '(s', n) := until_nl fuel (nxt s) 0 in (s', n, true, 0)
+  else if is_go d || (cur s =? 42) then
+    let '(s', n, term, nl) := block_body fuel (nxt s) 0 0 in
+    if term then (s', n, true, nl) else (err s' offs E_COMMENT, n, false, nl)
+  else (* XGo: '#'-style comment, the default *)
+    let '(s', n) := until_nl fuel s 0 in (s', n, true, 0).
+(* a //-comment line may end in "\r\n": remove the final '\r' first *)
+Definition comment_trim (lit0 : str) (ncr : Z) : str * Z :=
+  if (0 <? ncr) && (2 <=? zlen lit0) && (nth1 lit0 =? 47)%N && (last lit0 0 =? 13)%N
+  then (removelast lit0, ncr - 1) else (lit0, ncr).
+(* scanComment: state after, literal, nlOffset *)
+Definition scan_comment_x (s0 : Sc) : M (Sc * str * Z) :=
+  let offs := off s0 in
+  let '(s1, ncr, valid, nl) := comment_scan s0 in
+  let '(lit1, ncr1) := comment_trim (slice s0 s1) ncr in
   (* line directives; XGo guards len(lit) >= 2, in go/scanner it always holds *)
   let s2 :=
     if valid && (2 <=? zlen lit1) && ((nth1 lit1 =? 42)%N || (offs =? lineoff s1))
@@ -596,139 +605,170 @@ Definition tk_eqb_simple (a b : tk) : bool :=
   | _, _ => false
   end.
 
+(* `done:` of Scan: return (pos, t, lit); the scanner is at s', insertSemi := isemi *)
+Definition emit (pos : Z) (t : tk) (lit : str) (s' : Sc) (isemi : bool) (np' : Z) (u : str) : M outcome :=
+  Ok (Emit (mkTok pos t lit (off s' - zlen u)) (mkSt s' isemi np' u 0)).
+(* return pos, s.tokSEMICOLON(), "\n" with s.insertSemi = false: the scanner is left at s' *)
+Definition emit_nl (pos : Z) (s' : Sc) (np' : Z) : M outcome :=
+  Ok (Emit (mkTok pos T_SEMICOLON [10%N] (off s')) (mkSt s' false np' [] 0)).
+Definition np_reset (np : Z) : Z := if is_go d then np else 0.          (* tokSEMICOLON: s.nParen = 0 *)
+
+(* case isLetter(ch): s is the state after skipWhitespace *)
+Definition lex_word (st : St) (s : Sc) : M outcome :=
+  let pos := off s in
+  let np := nparen st in
+  let c := cur s in
+  let s1 := scan_ident (S (length (rest s))) s in
+  let lit := slice s s1 in
+  if is_tpl d then emit pos T_IDENT lit s1 true np []
+  else if Nat.ltb 1 (length lit) then
+    match lookup d lit with
+    | T_KW k => emit pos (T_KW k) lit s1 (kw_semi d k) np []
+    | _ =>
+      if is_xgo d && str_eqb lit [112; 121]%N && (cur s1 =? 34) then            (* py"..." *)
+        let s2 := nxt s1 in
+        let s3 := scan_string (S (length (rest s2))) (off s2 - 1) s2 in
+        emit pos T_PYSTRING (slice s1 s3) s3 true np []
+      else emit pos T_IDENT lit s1 true np []
+    end
+  else if is_xgo d && ((c =? 99) || (c =? 67)) && (cur s1 =? 34) then             (* c"..." *)
+    let s2 := nxt s1 in
+    let s3 := scan_string (S (length (rest s2))) (off s2 - 1) s2 in
+    emit pos T_CSTRING (slice s1 s3) s3 true np []
+  else emit pos T_IDENT lit s1 true np [].
+
+(* case isDecimal(ch) || ch == '.' && isDecimal(rune(s.peek())) *)
+Definition lex_number (st : St) (s : Sc) : M outcome :=
+  let '(t, s1, u) := scan_number s in
+  let n := Z.to_nat (off s1 - u - off s) in
+  emit (off s) t (firstn n (rest s)) s1 true (nparen st) (firstn (Z.to_nat u) (skipn n (rest s))).
+
+(* a comment was scanned up to s2 (XGo, TPL): COMMENT token, or skip it with insertSemi = false *)
+Definition comment_out (comments : bool) (pos : Z) (np : Z) (s2 : Sc) (lit : str) : M outcome :=
+  if comments then emit pos T_COMMENT lit s2 false np [] else Ok (Again (mkSt s2 false np [] 0)).
+
+(* case '#' (XGo, TPL); s at the '#', s1 = after s.next() *)
+Definition lex_sharp (comments : bool) (st : St) (s s1 : Sc) : M outcome :=
+  let pos := off s in
+  if semi st then
+    (* reset to the '#' (the errors next() reported for the character after it stay),
+       return the newline semicolon *)
+    emit_nl pos (with_look s s1) 0
+  else if is_tpl d then
+    let '(s2, lit) := scan_sharp_tpl s in comment_out comments pos (nparen st) s2 lit
+  else
+    x <- scan_comment_x s ;;
+    let '(s2, lit, _) := x in comment_out comments pos (nparen st) s2 lit.
+
+(* case '/' followed by '/' or '*'; s at the first '/', s1 = after s.next() *)
+Definition lex_slash_comment (comments : bool) (st : St) (s s1 : Sc) : M outcome :=
+  let pos := off s in
+  let np := nparen st in
+  if is_go d then
+    x <- scan_comment_x s ;;
+    let '(s2, lit, nl) := x in
+    let '(isemi, nlp) := if semi st && negb (nl =? 0) then (false, nl) else (semi st, 0) in
+    if comments then Ok (Emit (mkTok pos T_COMMENT lit (off s2)) (mkSt s2 isemi np [] nlp))
+    else Ok (Again (mkSt s2 isemi np [] nlp))
+  else
+    let '(look, le) := if semi st then find_line_end (S (length (rest s1))) s1 else (s1, false) in
+    let s := with_look s look in
+    if semi st && le then
+      (* reset position to the beginning of the comment *)
+      emit_nl pos s 0
+    else if is_tpl d then
+      let '(s2, lit) := scan_comment_tpl s in comment_out comments pos np s2 lit
+    else
+      x <- scan_comment_x s ;;
+      let '(s2, lit, _) := x in comment_out comments pos np s2 lit.
+
+(* the default case of the outer switch: s.next() then switch ch *)
+Definition lex_punct (comments : bool) (st : St) (s : Sc) : M outcome :=
+  let pos := off s in
+  let np := nparen st in
+  let c := cur s in
+  let s1 := nxt s in                                          (* always make progress *)
+  let op (t : tk) (s' : Sc) (isemi : bool) := emit pos t [] s' isemi np [] in
+  if c =? -1 then
+    (if semi st then emit_nl pos s1 (np_reset np) else emit pos T_EOF [] s1 false np [])
+  else if c =? 10 then emit_nl pos s1 (np_reset np)
+  else if c =? 34 then
+    let s2 := scan_string (S (length (rest s1))) pos s1 in emit pos T_STRING (slice s s2) s2 true np []
+  else if c =? 39 then
+    let s2 := scan_rune (S (length (rest s1))) pos s1 true 0 in emit pos T_CHAR (slice s s2) s2 true np []
+  else if c =? 96 then
+    let s2 := scan_raw (S (length (rest s1))) pos s1 in
+    let l := slice s s2 in
+    emit pos T_STRING (if has_cr l then strip_cr_all l else l) s2 true np []
+  else if c =? 58 then let '(t, s2) := sw2 s1 T_COLON T_DEFINE in op t s2 false
+  else if c =? 46 then
+    if (cur s1 =? 46) && (peek s1 =? 46)%N
+    then op T_ELLIPSIS (nxt (nxt s1)) (negb (is_go d) && (np =? 0))
+    else op T_PERIOD s1 false
+  else if c =? 44 then op T_COMMA s1 false
+  else if c =? 59 then emit pos T_SEMICOLON [59%N] s1 false (np_reset np) []
+  else if c =? 40 then emit pos T_LPAREN [] s1 false (if is_go d then np else np + 1) []
+  else if c =? 41 then emit pos T_RPAREN [] s1 true (if is_go d then np else np - 1) []
+  else if c =? 91 then op T_LBRACK s1 false
+  else if c =? 93 then op T_RBRACK s1 true
+  else if c =? 123 then op T_LBRACE s1 false
+  else if c =? 125 then op T_RBRACE s1 true
+  else if c =? 43 then
+    let '(t, s2) := sw3 s1 T_ADD T_ADD_ASSIGN 43 T_INC in op t s2 (tk_eqb_simple t T_INC)
+  else if c =? 45 then
+    if negb (is_go d) && (cur s1 =? 62) then op T_SRARROW (nxt s1) false
+    else let '(t, s2) := sw3 s1 T_SUB T_SUB_ASSIGN 45 T_DEC in op t s2 (tk_eqb_simple t T_DEC)
+  else if c =? 42 then
+    if is_tpl d then let '(t, s2) := sw3 s1 T_MUL T_MUL_ASSIGN 42 T_POW in op t s2 false
+    else let '(t, s2) := sw2 s1 T_MUL T_MUL_ASSIGN in op t s2 false
+  else if negb (is_go d) && (c =? 35) then lex_sharp comments st s s1
+  else if c =? 47 then
+    if (cur s1 =? 47) || (cur s1 =? 42) then lex_slash_comment comments st s s1
+    else let '(t, s2) := sw2 s1 T_QUO T_QUO_ASSIGN in op t s2 false
+  else if c =? 37 then let '(t, s2) := sw2 s1 T_REM T_REM_ASSIGN in op t s2 false
+  else if c =? 94 then let '(t, s2) := sw2 s1 T_XOR T_XOR_ASSIGN in op t s2 false
+  else if c =? 60 then
+    if cur s1 =? 45 then op T_ARROW (nxt s1) false
+    else if negb (is_go d) && (cur s1 =? 62) then op T_BIDIARROW (nxt s1) false
+    else let '(t, s2) := sw4 s1 T_LSS T_LEQ 60 T_SHL T_SHL_ASSIGN in op t s2 false
+  else if c =? 62 then let '(t, s2) := sw4 s1 T_GTR T_GEQ 62 T_SHR T_SHR_ASSIGN in op t s2 false
+  else if c =? 61 then
+    if is_go d then let '(t, s2) := sw2 s1 T_ASSIGN T_EQL in op t s2 false
+    else let '(t, s2) := sw3 s1 T_ASSIGN T_EQL 62 T_DRARROW in op t s2 false
+  else if c =? 33 then
+    let '(t, s2) := sw2 s1 T_NOT T_NEQ in op t s2 (negb (is_go d) && tk_eqb_simple t T_NOT)
+  else if c =? 38 then
+    if cur s1 =? 94 then let '(t, s2) := sw2 (nxt s1) T_AND_NOT T_AND_NOT_ASSIGN in op t s2 false
+    else let '(t, s2) := sw3 s1 T_AND T_AND_ASSIGN 38 T_LAND in op t s2 false
+  else if c =? 124 then let '(t, s2) := sw3 s1 T_OR T_OR_ASSIGN 124 T_LOR in op t s2 false
+  else if negb (is_go d) && (c =? 63) then op T_QUESTION s1 true
+  else if negb (is_go d) && (c =? 36) then op T_ENV s1 false
+  else if negb (is_xgo d) && (c =? 126) then op T_TILDE s1 false
+  else if is_tpl d && (c =? 64) then op T_AT s1 false
+  else
+    let s2 := if c =? bom then s1 else err s1 pos E_ILLEGAL in
+    emit pos T_ILLEGAL (enc c) s2 (semi st) np [].
+
+(* the outer switch of Scan; s = the state after skipWhitespace *)
+Definition lex (comments : bool) (st : St) (s : Sc) : M outcome :=
+  let c := cur s in
+  if is_letter c then lex_word st s
+  else if is_decimal c || ((c =? 46) && is_decimal_b (peek s)) then lex_number st s
+  else lex_punct comments st s.
+
+(* one pass through Scan from its top (scanAgain:) to a return or to goto scanAgain *)
 Definition step (comments : bool) (st : St) : M outcome :=
   if is_go d && negb (nlpos st =? 0) then
     (* artificial ';' after a /*...*/ comment containing a newline *)
     Ok (Emit (mkTok (nlpos st) T_SEMICOLON [10%N] (nlpos st)) (mkSt (sc st) (semi st) (nparen st) (unit st) 0))
   else
-  let has_unit := match unit st with [] => false | _ => true end in
-  let s := if is_xgo d && has_unit then sc st
-           else skip_ws (S (length (rest (sc st)))) (semi st) (sc st) in
-  let pos := off s in
-  let np := nparen st in
-  if has_unit then
-    Ok (Emit (mkTok (pos - zlen (unit st)) T_UNIT (unit st) pos) (mkSt s true np [] 0))
-  else
-  let done (t : tk) (lit : str) (s' : Sc) (isemi : bool) (np' : Z) (u : str) :=
-    Ok (Emit (mkTok pos t lit (off s' - zlen u)) (mkSt s' isemi np' u 0)) in
-  let c := cur s in
-  if is_letter c then
-    let s1 := scan_ident (S (length (rest s))) s in
-    let lit := slice s s1 in
-    if is_tpl d then done T_IDENT lit s1 true np []
-    else if Nat.ltb 1 (length lit) then
-      match lookup d lit with
-      | T_KW k => done (T_KW k) lit s1 (kw_semi d k) np []
-      | _ =>
-        if is_xgo d && str_eqb lit [112; 121]%N && (cur s1 =? 34) then            (* py"..." *)
-          let s2 := nxt s1 in
-          let s3 := scan_string (S (length (rest s2))) (off s2 - 1) s2 in
-          done T_PYSTRING (slice s1 s3) s3 true np []
-        else done T_IDENT lit s1 true np []
-      end
-    else if is_xgo d && ((c =? 99) || (c =? 67)) && (cur s1 =? 34) then             (* c"..." *)
-      let s2 := nxt s1 in
-      let s3 := scan_string (S (length (rest s2))) (off s2 - 1) s2 in
-      done T_CSTRING (slice s1 s3) s3 true np []
-    else done T_IDENT lit s1 true np []
-  else if is_decimal c || ((c =? 46) && is_decimal_b (peek s)) then
-    let '(t, s1, u) := scan_number s in
-    let n := Z.to_nat (off s1 - u - off s) in
-    done t (firstn n (rest s)) s1 true np (firstn (Z.to_nat u) (skipn n (rest s)))
-  else
-    let s1 := nxt s in                                          (* always make progress *)
-    let op (t : tk) (s' : Sc) (isemi : bool) := done t [] s' isemi np [] in
-    let semicolon_nl (s' : Sc) :=
-      Ok (Emit (mkTok pos T_SEMICOLON [10%N] (off s')) (mkSt s' false (if is_go d then np else 0) [] 0)) in
-    if c =? -1 then
-      (if semi st then semicolon_nl s1 else done T_EOF [] s1 false np [])
-    else if c =? 10 then semicolon_nl s1
-    else if c =? 34 then
-      let s2 := scan_string (S (length (rest s1))) pos s1 in done T_STRING (slice s s2) s2 true np []
-    else if c =? 39 then
-      let s2 := scan_rune (S (length (rest s1))) pos s1 true 0 in done T_CHAR (slice s s2) s2 true np []
-    else if c =? 96 then
-      let s2 := scan_raw (S (length (rest s1))) pos s1 in
-      let l := slice s s2 in
-      done T_STRING (if has_cr l then strip_cr_all l else l) s2 true np []
-    else if c =? 58 then let '(t, s2) := sw2 s1 T_COLON T_DEFINE in op t s2 false
-    else if c =? 46 then
-      if (cur s1 =? 46) && (peek s1 =? 46)%N
-      then op T_ELLIPSIS (nxt (nxt s1)) (negb (is_go d) && (np =? 0))
-      else op T_PERIOD s1 false
-    else if c =? 44 then op T_COMMA s1 false
-    else if c =? 59 then done T_SEMICOLON [59%N] s1 false (if is_go d then np else 0) []
-    else if c =? 40 then done T_LPAREN [] s1 false (if is_go d then np else np + 1) []
-    else if c =? 41 then done T_RPAREN [] s1 true (if is_go d then np else np - 1) []
-    else if c =? 91 then op T_LBRACK s1 false
-    else if c =? 93 then op T_RBRACK s1 true
-    else if c =? 123 then op T_LBRACE s1 false
-    else if c =? 125 then op T_RBRACE s1 true
-    else if c =? 43 then
-      let '(t, s2) := sw3 s1 T_ADD T_ADD_ASSIGN 43 T_INC in op t s2 (tk_eqb_simple t T_INC)
-    else if c =? 45 then
-      if negb (is_go d) && (cur s1 =? 62) then op T_SRARROW (nxt s1) false
-      else let '(t, s2) := sw3 s1 T_SUB T_SUB_ASSIGN 45 T_DEC in op t s2 (tk_eqb_simple t T_DEC)
-    else if c =? 42 then
-      if is_tpl d then let '(t, s2) := sw3 s1 T_MUL T_MUL_ASSIGN 42 T_POW in op t s2 false
-      else let '(t, s2) := sw2 s1 T_MUL T_MUL_ASSIGN in op t s2 false
-    else if negb (is_go d) && (c =? 35) then
-      if semi st then
-        (* reset to the '#' (the errors next() reported for the character after it stay),
-           return the newline semicolon *)
-        Ok (Emit (mkTok pos T_SEMICOLON [10%N] pos) (mkSt (with_look s s1) false 0 [] 0))
-      else if is_tpl d then
-        let '(s2, lit) := scan_sharp_tpl s in
-        if comments then done T_COMMENT lit s2 false np [] else Ok (Again (mkSt s2 false np [] 0))
-      else
-        x <- scan_comment_x s ;;
-        let '(s2, lit, _) := x in
-        if comments then done T_COMMENT lit s2 false np [] else Ok (Again (mkSt s2 false np [] 0))
-    else if c =? 47 then
-      if (cur s1 =? 47) || (cur s1 =? 42) then
-        if is_go d then
-          x <- scan_comment_x s ;;
-          let '(s2, lit, nl) := x in
-          let '(isemi, nlp) := if semi st && negb (nl =? 0) then (false, nl) else (semi st, 0) in
-          if comments then Ok (Emit (mkTok pos T_COMMENT lit (off s2)) (mkSt s2 isemi np [] nlp))
-          else Ok (Again (mkSt s2 isemi np [] nlp))
-        else
-          let '(look, le) := if semi st then find_line_end (S (length (rest s1))) s1 else (s1, false) in
-          let s := with_look s look in
-          if semi st && le then
-            (* reset position to the beginning of the comment *)
-            Ok (Emit (mkTok pos T_SEMICOLON [10%N] pos) (mkSt s false 0 [] 0))
-          else if is_tpl d then
-            let '(s2, lit) := scan_comment_tpl s in
-            if comments then done T_COMMENT lit s2 false np [] else Ok (Again (mkSt s2 false np [] 0))
-          else
-            x <- scan_comment_x s ;;
-            let '(s2, lit, _) := x in
-            if comments then done T_COMMENT lit s2 false np [] else Ok (Again (mkSt s2 false np [] 0))
-      else let '(t, s2) := sw2 s1 T_QUO T_QUO_ASSIGN in op t s2 false
-    else if c =? 37 then let '(t, s2) := sw2 s1 T_REM T_REM_ASSIGN in op t s2 false
-    else if c =? 94 then let '(t, s2) := sw2 s1 T_XOR T_XOR_ASSIGN in op t s2 false
-    else if c =? 60 then
-      if cur s1 =? 45 then op T_ARROW (nxt s1) false
-      else if negb (is_go d) && (cur s1 =? 62) then op T_BIDIARROW (nxt s1) false
-      else let '(t, s2) := sw4 s1 T_LSS T_LEQ 60 T_SHL T_SHL_ASSIGN in op t s2 false
-    else if c =? 62 then let '(t, s2) := sw4 s1 T_GTR T_GEQ 62 T_SHR T_SHR_ASSIGN in op t s2 false
-    else if c =? 61 then
-      if is_go d then let '(t, s2) := sw2 s1 T_ASSIGN T_EQL in op t s2 false
-      else let '(t, s2) := sw3 s1 T_ASSIGN T_EQL 62 T_DRARROW in op t s2 false
-    else if c =? 33 then
-      let '(t, s2) := sw2 s1 T_NOT T_NEQ in op t s2 (negb (is_go d) && tk_eqb_simple t T_NOT)
-    else if c =? 38 then
-      if cur s1 =? 94 then let '(t, s2) := sw2 (nxt s1) T_AND_NOT T_AND_NOT_ASSIGN in op t s2 false
-      else let '(t, s2) := sw3 s1 T_AND T_AND_ASSIGN 38 T_LAND in op t s2 false
-    else if c =? 124 then let '(t, s2) := sw3 s1 T_OR T_OR_ASSIGN 124 T_LOR in op t s2 false
-    else if negb (is_go d) && (c =? 63) then op T_QUESTION s1 true
-    else if negb (is_go d) && (c =? 36) then op T_ENV s1 false
-    else if negb (is_xgo d) && (c =? 126) then op T_TILDE s1 false
-    else if is_tpl d && (c =? 64) then op T_AT s1 false
-    else
-      let s2 := if c =? bom then s1 else err s1 pos E_ILLEGAL in
-      done T_ILLEGAL (enc c) s2 (semi st) np [].
+  match unit st with
+  | _ :: _ =>
+    (* number with unit: XGo does not skip blanks while a unit is pending, TPL does *)
+    let s := if is_xgo d then sc st else skip_ws (S (length (rest (sc st)))) (semi st) (sc st) in
+    Ok (Emit (mkTok (off s - zlen (unit st)) T_UNIT (unit st) (off s)) (mkSt s true (nparen st) [] 0))
+  | [] => lex comments st (skip_ws (S (length (rest (sc st)))) (semi st) (sc st))
+  end.
 
 (* the token stream: Scan until EOF (EOF token included), and the errors in report order *)
 Fixpoint scan_all (fuel : nat) (comments : bool) (st : St) (acc : list Tok) : M (list Tok * list (Z * Z)) :=
